@@ -3,6 +3,7 @@ package main
 // C19: reports are well-formed for any names.
 
 import (
+	"bytes"
 	"encoding/json"
 	"fmt"
 	"math/rand"
@@ -83,6 +84,51 @@ func genOddCase(rng *rand.Rand, id string, forge bool) (cases.ScanCase, cases.Sc
 	}
 	pl.G = pg
 	return sc, pl
+}
+
+// longNameCases: the path of the biggest blob, or the ROOT argument every description starts with, is as long as
+// a buffer (4 096 / 65 536 bytes) or longer; the twin has short names.
+func longNameCases(quickTier bool) ([]cases.ScanCase, []cases.ScanCase) {
+	sizes := []int{4097, 65536, 70000}
+	if !quickTier {
+		sizes = []int{4095, 4096, 4097, 65535, 65536, 65537, 70000, 100000}
+	}
+	var odd, plain []cases.ScanCase
+	for _, n := range sizes {
+		for _, where := range []string{"entry-name", "root-argument"} {
+			mk := func(long bool) cases.ScanCase {
+				names := map[int][]byte{1: []byte("big"), 2: []byte("small")}
+				if long && where == "entry-name" {
+					names[1] = bytes.Repeat([]byte("L"), n)
+				}
+				g := model.Graph{Blobs: []int{5000, 7},
+					Trees:   [][]model.Entry{{{K: "file", To: 1, N: 1, NL: len(names[1])}, {K: "file", To: 2, N: 2, NL: len(names[2])}}},
+					Commits: []model.Commit{{Tree: 1, Parents: []int{}}}, Tags: []model.Tag{{TK: "c", To: 1}}}
+				g.Normalize()
+				sc := cases.ScanCase{G: g, Names: names, Style: "full"}
+				if where == "root-argument" {
+					e := "refs/heads/main"
+					if long {
+						e += strings.Repeat("^0", (n-len(e))/2)
+					}
+					sc.Args = []string{e}
+					sc.Roots = []cases.RootSpec{{O: model.Oid{K: "c", I: 1}, Walk: false, IsRef: true, Name: "refs/heads/main", Kind: "plain"},
+						{O: model.Oid{K: "g", I: 1}, Walk: false, IsRef: true, Name: "refs/tags/v1", Kind: "plain"},
+						{O: model.Oid{K: "c", I: 1}, Walk: true, IsRef: false, Name: e, Kind: "plain"}}
+				} else {
+					sc.Roots = []cases.RootSpec{{O: model.Oid{K: "c", I: 1}, Walk: true, IsRef: true, Name: "refs/heads/main", Kind: "plain"},
+						{O: model.Oid{K: "g", I: 1}, Walk: true, IsRef: true, Name: "refs/tags/v1", Kind: "plain"}}
+				}
+				return sc
+			}
+			o, p := mk(true), mk(false)
+			o.ID = fmt.Sprintf("long-%s-%d", where, n)
+			p.ID = o.ID + "-plain"
+			odd = append(odd, o)
+			plain = append(plain, p)
+		}
+	}
+	return odd, plain
 }
 
 func keySet(m map[string]json.RawMessage) string {
@@ -204,6 +250,10 @@ func checkC19(c *Ctx) {
 	fo, fp := genOddCase(rng, "forge1", true)
 	odd = append(odd, fo)
 	plain = append(plain, fp)
+	// names and ROOT arguments around the sizes at which buffers end (4 KiB, 64 KiB)
+	lo, lp := longNameCases(quick(c))
+	odd = append(odd, lo...)
+	plain = append(plain, lp...)
 	ro := env.parallelCLI(odd, cliOpt{Formats: true, NoTrace: true}, 16)
 	rp := env.parallelCLI(plain, cliOpt{Formats: true, NoTrace: true}, 16)
 	var fcs []map[string]interface{}
